@@ -11,8 +11,8 @@ import UF.Model.Match
   `matchAllG` functions are generic in the match predicate `m` (instantiated with
   `fun r => r.matches ext q`), the lower-cased URL and the source hostname.
 -/
-namespace UF
-open Bytes
+namespace UF.B
+open UF UF.Bytes
 
 /-- Storage index (Go `int64`). -/
 abbrev Idx := Int
@@ -123,4 +123,4 @@ def DomainsTable.matchAllG (hf : HashFns) (retrieve : Idx → Option NetRule) (m
 /-- `containsRule` of the sequential table: same rule text. -/
 def containsRule (rs : List NetRule) (r : NetRule) : Bool := rs.any (·.text == r.text)
 
-end UF
+end UF.B
